@@ -149,6 +149,10 @@ class Driver(object):
             vb = enc(v)
             parts.append(struct.pack('<I', len(kb)) + kb + struct.pack('<I', len(vb)) + vb)
         body = b''.join(parts)
+        if os.environ.get('XDRV_DUMP_REQ'):
+            # triage aid: append every framed request to a file that can be fed to `xdrv < file` under gdb
+            with open(os.environ['XDRV_DUMP_REQ'], 'ab') as f:
+                f.write(struct.pack('<I', len(body)) + body)
         try:
             self.proc.stdin.write(struct.pack('<I', len(body)) + body)
             self.proc.stdin.flush()
